@@ -7,7 +7,7 @@ silent (benign variants).
 usage: variants.py <prop> [repo] [--json out.json] [--only name] [-v]
 exit 0: all applicable variants behaved as expected; 2 otherwise.
 """
-import json, os, subprocess, sys, tempfile, concurrent.futures, time
+import json, os, re, shutil, subprocess, sys, tempfile, concurrent.futures, time, glob
 
 VERIF = os.path.dirname(os.path.dirname(os.path.abspath(__file__)))
 BIN = os.path.join(VERIF, 'bin', 'thunderlint')
@@ -17,6 +17,26 @@ def run_variant(prop, repo, v):
     overlays = []
     tmpfiles = []
     byfile = {}
+    if v.get('patch'):
+        # start from a behaviour-preserving refactor kept as a unified diff under /verif/benign
+        # (applied to scratch copies of the files it touches; /repo is not written)
+        diff = open(os.path.join(VERIF, v['patch'])).read()
+        touched = re.findall(r'^\+\+\+ b/(\S+)', diff, re.M)
+        td = tempfile.mkdtemp(prefix='variant-')
+        try:
+            for rel in touched:
+                os.makedirs(os.path.dirname(os.path.join(td, rel)), exist_ok=True)
+                if os.path.exists(os.path.join(repo, rel)):
+                    shutil.copy(os.path.join(repo, rel), os.path.join(td, rel))
+            pr = subprocess.run(['patch', '-p1', '-s', '-f', '-d', td], input=diff, capture_output=True, text=True)
+            if pr.returncode != 0:
+                return dict(name=v['name'], status='skipped', why='patch does not apply: ' + v['patch'])
+            for rel in touched:
+                byfile[os.path.join(repo, rel)] = open(os.path.join(td, rel)).read()
+        finally:
+            shutil.rmtree(td, ignore_errors=True)
+        if not v.get('edits') and 'old' not in v and 'regex' not in v:
+            edits = []
     for e in edits:
         path = os.path.join(repo, e['file'])
         src = byfile.get(path)
@@ -27,7 +47,7 @@ def run_variant(prop, repo, v):
                 return dict(name=v['name'], status='skipped', why='file missing: ' + e['file'])
         if 'regex' in e:
             # identifier renames and similar whole-file rewrites (benign variants)
-            import re
+
             new_src, cnt = re.subn(e['regex'], e['repl'], src)
             if cnt == 0:
                 return dict(name=v['name'], status='skipped', why='regex matches nothing in ' + e['file'])
@@ -83,6 +103,10 @@ def main():
     repo = args[1] if len(args) > 1 else '/repo'
     path = os.path.join(VERIF, 'variants', prop + '.json')
     variants = json.load(open(path)) if os.path.exists(path) else []
+    # every refactor under /verif/benign is a benign variant of every property
+    for d in sorted(glob.glob(os.path.join(VERIF, 'benign', '*', '*.diff'))):
+        rel = os.path.relpath(d, VERIF)
+        variants.append(dict(name='refactor-' + rel[len('benign/'):-len('.diff')].replace('/', '-'), patch=rel, benign=True))
     if only:
         variants = [v for v in variants if v['name'] == only]
     workers = int(os.environ.get('VARIANT_JOBS', '6'))
